@@ -60,10 +60,12 @@ func (s *socket) RecvMsg() (*protocol.Message, error) {
 	// For now this uses a simple unified queue for the entire
 	// socket.  Later we can look at moving this to priority queues
 	// based on socket pipes.
+	// The deadline is armed once per call: a queue resize restarts the
+	// wait, it does not extend the deadline.
 	timeQ := nilQ
 	for {
 		s.Lock()
-		if s.recvExpire > 0 {
+		if timeQ == nil && s.recvExpire > 0 {
 			timeQ = time.After(s.recvExpire)
 		}
 		closeQ := s.closeQ
